@@ -520,10 +520,16 @@ func (cm *CMap) parseBfRangeArray(line string) {
 
 	// Extract array content
 	arrayStart := strings.Index(line, "[")
-	arrayEnd := strings.Index(line, "]")
-	if arrayStart == -1 || arrayEnd == -1 {
+	if arrayStart == -1 {
 		return
 	}
+	// the closing bracket is looked for after the opening one (a stray ']'
+	// may stand before it)
+	arrayEnd := strings.Index(line[arrayStart:], "]")
+	if arrayEnd == -1 {
+		return
+	}
+	arrayEnd += arrayStart
 
 	arrayContent := line[arrayStart+1 : arrayEnd]
 
